@@ -24,6 +24,32 @@ class ImportFailure(Exception):
         self.stack = stack
 
 
+import builtins as _b
+
+_BUILTINS = frozenset(dir(_b))
+
+
+def _own_calls(node):
+    """Call nodes evaluated when `node` is (bodies of lambdas / nested functions excluded), innermost first"""
+    out = []
+
+    def rec(n):
+        if isinstance(n, (ast.Lambda, ast.FunctionDef, ast.AsyncFunctionDef)):
+            return
+        for c in ast.iter_child_nodes(n):
+            rec(c)
+        if isinstance(n, ast.Call):
+            out.append(n)
+
+    rec(node)
+    return out
+
+
+_MAIN_GUARDS = frozenset(
+    ast.dump(ast.parse(t, mode="eval").body) for t in ('__name__ == "__main__"', '"__main__" == __name__')
+)
+
+
 def _uses(node, out):
     """attribute chains / names evaluated when `node` is executed at import time"""
 
@@ -64,7 +90,76 @@ def _uses(node, out):
     rec(node)
 
 
-def module_events(m):
+FORCERS = frozenset(
+    "list tuple set frozenset dict sorted next any all sum min max deque OrderedDict enumerate zip reversed".split()
+)
+HIGHER_ORDER = frozenset(("builtins.map", "builtins.filter", "itertools.starmap", "functools.reduce"))
+
+
+def _forced(m, c):
+    """is the lazy iterator built by call `c` consumed where it is built?"""
+    p = m.parents.get(c)
+    if isinstance(p, ast.Starred):
+        return True
+    if isinstance(p, ast.Call) and c in p.args:
+        fn = p.func
+        nm = fn.id if isinstance(fn, ast.Name) else (fn.attr if isinstance(fn, ast.Attribute) else "")
+        return nm in FORCERS or nm in ("join", "extend", "update", "map", "filter", "chain", "from_iterable")
+    if isinstance(p, (ast.Assign,)) and p.value is c:
+        return any(isinstance(t, (ast.Tuple, ast.List)) for t in p.targets)
+    if isinstance(p, (ast.For, ast.comprehension)) and p.iter is c:
+        return True
+    return False
+
+
+def _call_sites(node, m, index, out):
+    """
+    repo functions whose BODY runs when `node` is evaluated at import time:
+    (qualified name, [positional arg nodes] | None when unknown, {kw: node}, line)
+    """
+
+    def elements(it):
+        if isinstance(it, (ast.Tuple, ast.List, ast.Set)):
+            return list(it.elts)
+        return None
+
+    def rec(n):
+        if isinstance(n, (ast.FunctionDef, ast.AsyncFunctionDef)):
+            for d in n.decorator_list + n.args.defaults + [x for x in n.args.kw_defaults if x is not None]:
+                rec(d)
+            return
+        if isinstance(n, ast.Lambda):
+            for d in n.args.defaults + [x for x in n.args.kw_defaults if x is not None]:
+                rec(d)
+            return
+        for c in ast.iter_child_nodes(n):
+            rec(c)
+        if not isinstance(n, ast.Call):
+            return
+        q = index.callee(m, n, None)
+        if q in index.funcs:
+            out.append((q, list(n.args), {k.arg: k.value for k in n.keywords if k.arg}, n.lineno))
+            return
+        if q in HIGHER_ORDER and n.args and _forced(m, n):
+            fn = n.args[0]
+            pre, kws = [], {}
+            if isinstance(fn, ast.Call) and (index.callee(m, fn, None) or "").rpartition(".")[2] in ("partial",) and fn.args:
+                pre, kws = list(fn.args[1:]), {k.arg: k.value for k in fn.keywords if k.arg}
+                fn = fn.args[0]
+            if isinstance(fn, (ast.Name, ast.Attribute)):
+                r = index.resolve(m, fn, None)
+                if r in index.funcs:
+                    els = elements(n.args[1]) if len(n.args) == 2 else None
+                    if els is None:
+                        out.append((r, None, kws, n.lineno))
+                    else:
+                        for e in els:
+                            out.append((r, pre + [e], kws, n.lineno))
+
+    rec(node)
+
+
+def module_events(m, index=None):
     """ordered import-time events of module m"""
     ev = []
 
@@ -73,6 +168,11 @@ def module_events(m):
         _uses(node, tmp)
         for ch, ln in tmp:
             ev.append(("use", ch, ln))
+        if index is not None:
+            calls = []
+            _call_sites(node, m, index, calls)
+            for q, args, kws, ln in calls:
+                ev.append(("call", q, args, kws, ln))
 
     def stmt(s, in_class=False):
         if isinstance(s, ast.Import):
@@ -104,8 +204,13 @@ def module_events(m):
                 ev.append(("bind", s.name, s.lineno, None))
         elif isinstance(s, (ast.If, ast.While)):
             add_uses(s.test)
+            main_guard = isinstance(s, ast.If) and ast.dump(s.test) in _MAIN_GUARDS
+            mark = len(ev)
             for b in s.body:
                 stmt(b, in_class)
+            if main_guard:
+                # only executed when the module is run as a script, after its body completed
+                ev[mark:] = [e for e in ev[mark:] if e[0] != "call"]
             for b in s.orelse:
                 stmt(b, in_class)
         elif isinstance(s, (ast.For, ast.AsyncFor)):
@@ -172,11 +277,44 @@ def static_all(m):
 class ImportMachine(object):
     """the abstract machine; `events` is {module name: event list}"""
 
-    def __init__(self, index, events=None):
+    def __init__(self, index, events=None, calls=True):
         self.index = index
         self.mods = index.modules
-        self.events = events or {n: module_events(m) for n, m in index.modules.items()}
+        self.events = events or {n: module_events(m, index if calls else None) for n, m in index.modules.items()}
         self.all_lists = {n: static_all(m) for n, m in index.modules.items()}
+        self._env = None
+        self._frame_names = {}
+        self.calls_executed = 0
+
+    def env(self):
+        """constant folder over module-level tables (lazy)"""
+        if self._env is None:
+            from .fold import ModuleEnv
+
+            self._env = ModuleEnv(self.index)
+        return self._env
+
+    def frame_names(self, f):
+        """every name a call of f may bind locally (over-approximation: nested scopes included)"""
+        r = self._frame_names.get(f.qual)
+        if r is None:
+            r = set(f.params)
+            for n in ast.walk(f.node):
+                if isinstance(n, ast.Name) and isinstance(n.ctx, (ast.Store, ast.Del)):
+                    r.add(n.id)
+                elif isinstance(n, ast.arg):
+                    r.add(n.arg)
+                elif isinstance(n, (ast.FunctionDef, ast.AsyncFunctionDef, ast.ClassDef)) and n is not f.node:
+                    r.add(n.name)
+                elif isinstance(n, ast.ExceptHandler) and n.name:
+                    r.add(n.name)
+                elif isinstance(n, ast.alias):
+                    r.add((n.asname or n.name).split(".")[0])
+            for n in ast.walk(f.node):
+                if isinstance(n, (ast.Global, ast.Nonlocal)):
+                    r.difference_update(n.names)
+            self._frame_names[f.qual] = r
+        return r
 
     def run(self, order):
         """
@@ -204,28 +342,60 @@ class ImportMachine(object):
             bound = ns[m] = set(("__name__", "__file__", "__doc__", "__package__"))
             if mods[m].is_pkg:
                 bound.add("__path__")
+            def bind_mod(name, tgt, _m=m, _bound=bound):
+                _bound.add(name)
+                if tgt is not None:
+                    modval[(_m, name)] = tgt
+
             for e in events[m]:
                 k = e[0]
                 if k == "import":
                     _, dotted, bind, ln, has_as = e
-                    parts = dotted.split(".")
-                    here = stack + [(m, ln)]
-                    for i in range(1, len(parts) + 1):
-                        pre = ".".join(parts[:i])
-                        if i > 1 and ".".join(parts[: i - 1]) in mods and pre not in mods:
-                            raise ImportFailure(
-                                "ModuleNotFoundError",
-                                m,
-                                ln,
-                                "No module named {!r}".format(pre),
-                                here,
-                            )
-                        ensure(pre, here)
+                    do_import(m, dotted, ln, stack + [(m, ln)])
                     bound.add(bind)
-                    modval[(m, bind)] = dotted if has_as else parts[0]
+                    modval[(m, bind)] = dotted if has_as else dotted.split(".")[0]
                 elif k == "from":
                     _, base, names, ln = e
-                    here = stack + [(m, ln)]
+                    do_from(m, base, names, ln, stack + [(m, ln)], bind_mod)
+                elif k == "call":
+                    _, q, args, kws, ln = e
+                    exec_call(q, args, kws, {}, stack + [(m, ln)], 0)
+                elif k == "bind":
+                    bound.add(e[1])
+                    alias = e[3]
+                    modval.pop((m, e[1]), None)
+                    if alias is not None:
+                        tgt = walk(m, alias, e[2], stack, check=False)
+                        if tgt is not None:
+                            modval[(m, e[1])] = tgt
+                elif k == "unbind":
+                    bound.discard(e[1])
+                    modval.pop((m, e[1]), None)
+                elif k == "use":
+                    walk(m, e[1], e[2], stack, check=True)
+            state[m] = "done"
+            if parent and parent in mods:
+                ns[parent].add(m.rpartition(".")[2])
+                modval[(parent, m.rpartition(".")[2])] = m
+
+        def do_import(m, dotted, ln, here):
+            parts = dotted.split(".")
+            for i in range(1, len(parts) + 1):
+                pre = ".".join(parts[:i])
+                if i > 1 and ".".join(parts[: i - 1]) in mods and pre not in mods:
+                    raise ImportFailure(
+                        "ModuleNotFoundError",
+                        m,
+                        ln,
+                        "No module named {!r}".format(pre),
+                        here,
+                    )
+                ensure(pre, here)
+
+        def do_from(m, base, names, ln, here, bind):
+            """`from base import names` executed in module m; bind(name, module target | None) records each binding"""
+            if True:
+                if True:
                     if base.split(".")[0] == "cdd" and base not in mods:
                         raise ImportFailure(
                             "ModuleNotFoundError",
@@ -256,27 +426,20 @@ class ImportMachine(object):
                                                 "time of the star-import".format(base, nm),
                                                 here,
                                             )
-                                        bound.add(nm)
-                                        tgt = modval.get((base, nm))
-                                        if tgt is not None:
-                                            modval[(m, nm)] = tgt
+                                        bind(nm, modval.get((base, nm)))
                                 else:
                                     for nm in sorted(have):
                                         if not nm.startswith("_"):
-                                            bound.add(nm)
-                                            tgt = modval.get((base, nm))
-                                            if tgt is not None:
-                                                modval[(m, nm)] = tgt
+                                            bind(nm, modval.get((base, nm)))
                                 continue
+                            tgt = None
                             if name in ns.get(base, ()):
                                 tgt = modval.get((base, name))
                                 if tgt is None and base + "." + name in mods:
                                     tgt = base + "." + name
-                                if tgt is not None:
-                                    modval[(m, asname)] = tgt
                             elif base + "." + name in mods and mods[base].is_pkg:
                                 ensure(base + "." + name, here)
-                                modval[(m, asname)] = base + "." + name
+                                tgt = base + "." + name
                             elif state.get(base) == "loading":
                                 raise ImportFailure(
                                     "ImportError",
@@ -294,32 +457,206 @@ class ImportMachine(object):
                                     "cannot import name {!r} from {!r}".format(name, base),
                                     here,
                                 )
-                        if name != "*":
-                            bound.add(asname)
-                elif k == "bind":
-                    bound.add(e[1])
-                    alias = e[3]
-                    modval.pop((m, e[1]), None)
-                    if alias is not None:
-                        tgt = walk(m, alias, e[2], stack, check=False)
-                        if tgt is not None:
-                            modval[(m, e[1])] = tgt
-                elif k == "unbind":
-                    bound.discard(e[1])
-                    modval.pop((m, e[1]), None)
-                elif k == "use":
-                    walk(m, e[1], e[2], stack, check=True)
-            state[m] = "done"
-            if parent and parent in mods:
-                ns[parent].add(m.rpartition(".")[2])
-                modval[(parent, m.rpartition(".")[2])] = m
+                            bind(asname, tgt)
+                        elif name != "*":
+                            bind(asname, None)
 
-        def walk(m, chain, ln, stack, check):
+        active = set()
+
+        def exec_call(q, args, kws, caller_env, stack, depth):
+            """
+            run the body of repo function q as the interpreter would at this point of the import:
+            function-local imports, module attribute chains, global names of a still-loading module,
+            nested calls and import_module(...) with a foldable argument.
+            """
+            from .fold import Unknown, fold
+
+            f = self.index.funcs.get(q)
+            if f is None or depth > 6 or q in active:
+                return
+            M = f.mod.name
+            if M not in state:
+                return
+            self.calls_executed += 1
+            active.add(q)
+            names = self.frame_names(f)
+            fmod = {}  # local name -> dotted module (function-local imports)
+            local = {}  # local name -> constant
+            res = self.env()._resolver(f.mod, local)
+
+            def val(node, env=None):
+                try:
+                    return True, fold(node, local if env is None else env, res if env is None else self.env()._resolver(f.mod, env))
+                except Unknown:
+                    return False, None
+                except Exception:
+                    return False, None
+
+            if args is not None:
+                for i, a in enumerate(args):
+                    if isinstance(a, ast.Starred):
+                        break
+                    if i < len(f.params):
+                        try:
+                            local[f.params[i]] = fold(a, dict(caller_env), None)
+                        except Exception:
+                            pass
+                for k_, v_ in (kws or {}).items():
+                    try:
+                        local[k_] = fold(v_, dict(caller_env), None)
+                    except Exception:
+                        pass
+                # defaults of parameters not supplied
+                a_ = f.node.args
+                pos = a_.posonlyargs + a_.args
+                for prm, d in zip(pos[len(pos) - len(a_.defaults):], a_.defaults):
+                    if prm.arg not in local and (kws is None or prm.arg not in kws) and pos.index(prm) >= len(args):
+                        try:
+                            local[prm.arg] = fold(d, {}, None)
+                        except Exception:
+                            pass
+
+            def bind_local(name, tgt):
+                names.add(name)
+                if tgt is not None:
+                    fmod[name] = tgt
+                else:
+                    fmod.pop(name, None)
+
+            def use(ch, ln):
+                root = ch[0]
+                here = stack + [(M, ln)]
+                if root in fmod:
+                    walk(M, ch, ln, stack, True, first=fmod[root])
+                elif root in names:
+                    return
+                elif root in ns[M]:
+                    walk(M, ch, ln, stack, True)
+                elif root in _BUILTINS:
+                    return
+                elif state.get(M) == "loading":
+                    raise ImportFailure(
+                        "NameError",
+                        M,
+                        ln,
+                        "name {!r} is not defined: {}() runs at import time (called from {} line {}) while module {} "
+                        "has not bound it yet".format(root, f.node.name, stack[-1][0], stack[-1][1], M),
+                        here,
+                    )
+
+            def dynamic(c, ln):
+                here = stack + [(M, ln)]
+                ok_, v = val(c.args[0]) if c.args else (False, None)
+                if not ok_ or not isinstance(v, str):
+                    raise ImportFailure(
+                        "DynamicImport",
+                        M,
+                        ln,
+                        "{}() runs at import time (called from {} line {}) and imports a module whose name cannot be "
+                        "determined statically: {}".format(f.node.name, stack[-1][0], stack[-1][1], ast.unparse(c)[:80]),
+                        here,
+                    )
+                if v.split(".")[0] != "cdd":
+                    return None
+                do_import(M, v, ln, here)
+                return v
+
+            def expr(node):
+                if node is None:
+                    return
+                tmp = []
+                _uses(node, tmp)
+                for ch, ln in tmp:
+                    use(ch, ln)
+                for c in _own_calls(node):
+                    q2 = self.index.callee(f.mod, c, f)
+                    if q2 in ("importlib.import_module", "builtins.__import__"):
+                        tgt = dynamic(c, c.lineno)
+                        p_ = f.mod.parents.get(c)
+                        if tgt and isinstance(p_, ast.Call) and isinstance(p_.func, ast.Name) and p_.func.id == "getattr" and len(p_.args) >= 2 and p_.args[0] is c:
+                            ok_, attr = val(p_.args[1])
+                            if ok_ and isinstance(attr, str) and len(p_.args) == 2 and attr not in ns.get(tgt, ()) and tgt + "." + attr not in mods:
+                                raise ImportFailure(
+                                    "AttributeError",
+                                    M,
+                                    c.lineno,
+                                    "getattr(import_module({!r}), {!r}): {} module {!r} has no attribute {!r} "
+                                    "({}() runs at import time, called from {} line {})".format(
+                                        tgt, attr, "partially initialized" if state.get(tgt) == "loading" else "", tgt, attr, f.node.name, stack[-1][0], stack[-1][1]
+                                    ),
+                                    stack + [(M, c.lineno)],
+                                )
+                    elif q2 in self.index.funcs:
+                        exec_call(q2, list(c.args), {k.arg: k.value for k in c.keywords if k.arg}, local, stack + [(M, c.lineno)], depth + 1)
+
+            def run(stmts):
+                for st in stmts:
+                    if isinstance(st, ast.Import):
+                        for a in st.names:
+                            do_import(M, a.name, st.lineno, stack + [(M, st.lineno)])
+                            bind_local(a.asname or a.name.split(".")[0], a.name if a.asname else a.name.split(".")[0])
+                    elif isinstance(st, ast.ImportFrom):
+                        base = Index.abs_from(f.mod, st)
+                        do_from(M, base, [(a.name, a.asname or a.name) for a in st.names], st.lineno, stack + [(M, st.lineno)], bind_local)
+                    elif isinstance(st, ast.If):
+                        expr(st.test)
+                        ok_, v = val(st.test)
+                        if ok_:
+                            run(st.body if v else st.orelse)
+                        else:
+                            run(st.body)
+                            run(st.orelse)
+                    elif isinstance(st, (ast.For, ast.AsyncFor)):
+                        expr(st.iter)
+                        run(st.body)
+                        run(st.orelse)
+                    elif isinstance(st, ast.While):
+                        expr(st.test)
+                        run(st.body)
+                        run(st.orelse)
+                    elif isinstance(st, (ast.With, ast.AsyncWith)):
+                        for it in st.items:
+                            expr(it.context_expr)
+                        run(st.body)
+                    elif isinstance(st, ast.Try):
+                        run(st.body)
+                        for h in st.handlers:
+                            run(h.body)
+                        run(st.orelse)
+                        run(st.finalbody)
+                    elif isinstance(st, (ast.FunctionDef, ast.AsyncFunctionDef, ast.ClassDef)):
+                        for d in st.decorator_list:
+                            expr(d)
+                    elif isinstance(st, (ast.Assign, ast.AnnAssign, ast.AugAssign)):
+                        expr(st.value)
+                        tg = st.targets if isinstance(st, ast.Assign) else [st.target]
+                        for t in tg:
+                            if isinstance(t, ast.Name):
+                                ok_, v = val(st.value) if (st.value is not None and not isinstance(st, ast.AugAssign)) else (False, None)
+                                if ok_:
+                                    local[t.id] = v
+                                else:
+                                    local.pop(t.id, None)
+                                fmod.pop(t.id, None)
+                            else:
+                                expr(t)
+                    elif isinstance(st, (ast.Return, ast.Expr)):
+                        expr(st.value)
+                    elif isinstance(st, (ast.Raise, ast.Assert, ast.Delete)):
+                        for c_ in ast.iter_child_nodes(st):
+                            expr(c_)
+
+            try:
+                run(f.node.body)
+            finally:
+                active.discard(q)
+
+        def walk(m, chain, ln, stack, check, first=None):
             """follow an attribute chain through module-valued bindings"""
             if not chain:
                 return None
-            cur = modval.get((m, chain[0]))
-            if cur is None or chain[0] not in ns[m]:
+            cur = first if first is not None else modval.get((m, chain[0]))
+            if cur is None or (first is None and chain[0] not in ns[m]):
                 return None
             for attr in chain[1:]:
                 if cur not in mods:
